@@ -487,13 +487,35 @@ func (vc *VC) evalKnown(key string, callee *types.Func, recv Value, call *ast.Ca
 				ej := Term{fmt.Sprintf("(select (arr.%s %s) %s)", S, nv.S, gj.S), vc.ss.sortOf(et), et}
 				save := vc.safety
 				vc.safety = false
-				rs := vc.inlineClosure(cl, []Value{ei, ej}, call, st)
-				vc.safety = save
-				if len(rs) == 1 {
-					if r, ok := rs[0].(Term); ok && r.Sort == SInt {
-						vc.assume(st.pc, Term{fmt.Sprintf("(<= %s 0)", r.S), SBool, nil})
+				cmpOf := func(a, b Term) (Term, bool) {
+					rs := vc.inlineClosure(cl, []Value{a, b}, call, st)
+					if len(rs) == 1 {
+						if r, ok := rs[0].(Term); ok && r.Sort == SInt {
+							return r, true
+						}
 					}
+					return Term{}, false
 				}
+				// SortFunc orders its argument only if the comparator is a strict weak
+				// ordering; with any other comparator the result is unspecified. The
+				// comparator is therefore checked on three arbitrary elements
+				// (obligation pre:slices.SortFunc) before the ordering is assumed.
+				a3 := vc.unknown("cmpa", et)
+				b3 := vc.unknown("cmpb", et)
+				c3 := vc.unknown("cmpc", et)
+				rab, ok1 := cmpOf(a3, b3)
+				rba, ok2 := cmpOf(b3, a3)
+				rbc, ok3 := cmpOf(b3, c3)
+				rac, ok4 := cmpOf(a3, c3)
+				if ok1 && ok2 && ok3 && ok4 {
+					wf := fmt.Sprintf("(and (= (< %s 0) (> %s 0)) (=> (and (< %s 0) (< %s 0)) (< %s 0)) (=> (and (= %s 0) (= %s 0)) (= %s 0)) (=> (and (= %s 0) (< %s 0)) (< %s 0)) (=> (and (< %s 0) (= %s 0)) (< %s 0)))",
+						rab.S, rba.S, rab.S, rbc.S, rac.S, rab.S, rbc.S, rac.S, rab.S, rbc.S, rac.S, rab.S, rbc.S, rac.S)
+					vc.oblige("pre", "slices.SortFunc", pos, st.pc, Term{wf, SBool, nil}, "the comparator is a strict weak ordering (antisymmetric, transitive, with a transitive equivalence)")
+				}
+				if r, ok := cmpOf(ei, ej); ok && ok1 && ok2 && ok3 && ok4 {
+					vc.assume(st.pc, Term{fmt.Sprintf("(<= %s 0)", r.S), SBool, nil})
+				}
+				vc.safety = save
 				fr := vc.cur()
 				if fr.ghosts == nil {
 					fr.ghosts = map[string]Value{}
